@@ -56,6 +56,12 @@ Theorem C18_symbols_have_one_meaning : code_symbols_unambiguous = true.
 Proof. exact code_symbols_one_meaning. Qed.
 Print Assumptions C18_symbols_have_one_meaning.
 
+(* the parser's two chains for the litre and molar families (re-read from the source on every run) give every listed symbol the
+   base units whose combination is its SI meaning *)
+Theorem C18_parse_chains_agree : code_chains_ok = true.
+Proof. exact code_chains_agree. Qed.
+Print Assumptions C18_parse_chains_agree.
+
 (* text outside the grammar is rejected by the model: examples of every family of the statement (by computation) *)
 Open Scope N_scope.
 Example C18_rejects :
